@@ -243,3 +243,40 @@ pub(crate) mod atomic {
         }
     }
 }
+
+/// Drop-in replacement for the `Cell<u8>` that holds the state of the single-threaded event.
+/// Every access is reported through the `cell` hook as part `state` of the object that the
+/// cell's own address belongs to (the harness relates the two through the `created` hook).
+#[repr(transparent)]
+pub(crate) struct LocalCell<T: Copy>(std::cell::Cell<T>);
+
+impl<T: Copy> LocalCell<T> {
+    pub(crate) const fn new(value: T) -> Self {
+        Self(std::cell::Cell::new(value))
+    }
+
+    fn report(&self, access: &'static str) {
+        cell((&raw const self.0).addr(), "state", access);
+    }
+
+    pub(crate) fn get(&self) -> T {
+        self.report("r");
+        self.0.get()
+    }
+
+    pub(crate) fn set(&self, value: T) {
+        self.report("w");
+        self.0.set(value);
+    }
+
+    pub(crate) fn replace(&self, value: T) -> T {
+        self.report("w");
+        self.0.replace(value)
+    }
+}
+
+impl<T: Copy + fmt::Debug> fmt::Debug for LocalCell<T> {
+    fn fmt(&self, f: &mut fmt::Formatter<'_>) -> fmt::Result {
+        self.0.fmt(f)
+    }
+}
